@@ -452,7 +452,7 @@ func init() {
 	copies := []string{"(*graph.DenseGraph).Copy", "(*graph.DenseGraph).InducedSubgraph", "(graph.SparseGraph).Copy", "(graph.SparseGraph).InducedSubgraph"}
 	register(&propDef{
 		id:          "C05",
-		explanation: "Decides three structural clauses of the editable graphs: COUPLE (in every function of package graph that directly mutates adjacency storage reached from a parameter, every path through the mutation also writes NumberOfEdges and DegreeSequence of that graph; AddEdge/RemoveEdge of both representations update the count once, each endpoint's degree once, with the sign of the adjacency change), FRESH/PURE (Copy and InducedSubgraph of both representations return memory that reaches neither receiver nor argument, and write nothing reachable from them), ROWS (every neighbour list stored into a SparseGraph table owns its backing array: no window into an array shared with other rows), TRI (every element index into DenseGraph.Edges in graph_dense.go is a lower-triangle cell J(J-1)/2+I with 0<=I<J proved by E-PROVE where the operands are locally controlled, a running index over a J/I nest, or a linear sweep). Does not decide agreement with the adjacency-set model under arbitrary histories.",
+		explanation: "Decides three structural clauses of the editable graphs: COUPLE (in every function of package graph that directly mutates adjacency storage reached from a parameter, every path through the mutation also writes NumberOfEdges and DegreeSequence of that graph; AddEdge/RemoveEdge of both representations update the count once, each endpoint's degree once, with the sign of the adjacency change), FRESH/PURE (Copy and InducedSubgraph of both representations return memory that reaches neither receiver nor argument, and write nothing reachable from them), EDGEBYTE (a byte read from an existing graph's adjacency storage is only ever tested against zero, never used numerically, since any non-zero byte is an edge), ROWS (every neighbour list stored into a SparseGraph table owns its backing array: no window into an array shared with other rows), TRI (every element index into DenseGraph.Edges in graph_dense.go is a lower-triangle cell J(J-1)/2+I with 0<=I<J proved by E-PROVE where the operands are locally controlled, a running index over a J/I nest, or a linear sweep). Does not decide agreement with the adjacency-set model under arbitrary histories.",
 		notDecided:  []string{"that observers agree with an adjacency-set model after every edit history (e.g. the compaction arithmetic of dense RemoveVertex, duplicate neighbours passed to AddVertex)", "dense/sparse agreement", "InducedSubgraph(V) maps vertex i to V[i]"},
 		assumptions: []string{"vertex numbers passed as parameters are non-negative (callers' contract)", "neighbour lists / codes loaded from memory satisfy their range preconditions (recorded in the evidence, not judged)"},
 		run: func(c *Ctx, tier string) []*RuleResult {
@@ -469,7 +469,7 @@ func init() {
 			}
 			tri := ruleTriX(c, inFiles("graph_dense.go"), "TRI", true)
 			tri.MinInst = 5
-			return []*RuleResult{cp, fr, tri, ruleRows(c)}
+			return []*RuleResult{cp, fr, tri, ruleRows(c), ruleEdgeByte(c, "graph")}
 		},
 		controls: func(ctl *Ctx) []*RuleResult {
 			cp := ruleCouple(ctl, map[string]bool{"ctl/graph": true})
@@ -480,12 +480,12 @@ func init() {
 			freshResult(ctl, fr, ctl.Fn("(*graph.DenseGraph).GoodCopy"), 0, nil, nil, "is a deep copy")
 			tri := ruleTri(ctl, func(string) bool { return true }, "TRI")
 			lit := ruleLiteral(ctl)
-			return []*RuleResult{cp, es, fr, tri, lit, ruleRows(ctl)}
+			return []*RuleResult{cp, es, fr, tri, lit, ruleRows(ctl), ruleEdgeByte(ctl, "graph")}
 		},
 	})
 	register(&propDef{
 		id:          "C06",
-		explanation: "Decides: FRESH (the graphs returned by NewDense and NewSparse reach no memory of the caller's edges / neighbourhoods slices, so later writes by the caller cannot change them), LITERAL (every DenseGraph/SparseGraph composite literal in the module that sets the adjacency field also sets NumberOfVertices, NumberOfEdges and DegreeSequence), OWNER (no function other than SparseGraph's own edit methods writes the fields of an existing SparseGraph, whether received as a parameter or obtained from a constructor call, so decoders cannot bypass the row invariants), TRI (every hand-written index into packed-triangle storage in the generators, transformations, decoders and the search is a lower-triangle cell: closed form with 0<=I<J proved for all accepted parameter values when the operands are locally controlled, running index, or linear sweep), and classifies each constructor as counted-by-construction or hand-filled. Does not decide that each named family has exactly the edges of its definition.",
+		explanation: "Decides: FRESH (the graphs returned by NewDense and NewSparse reach no memory of the caller's edges / neighbourhoods slices, so later writes by the caller cannot change them), LITERAL (every DenseGraph/SparseGraph composite literal in the module that sets the adjacency field also sets NumberOfVertices, NumberOfEdges and DegreeSequence), EDGEBYTE (transformations and encoders never use the numeric value of an input graph's adjacency byte), VIEW (the methods of the live complement / induced-subgraph views write nothing reachable from the view: no cache to go stale), OWNER (no function other than SparseGraph's own edit methods writes the fields of an existing SparseGraph, whether received as a parameter or obtained from a constructor call, so decoders cannot bypass the row invariants), TRI (every hand-written index into packed-triangle storage in the generators, transformations, decoders and the search is a lower-triangle cell: closed form with 0<=I<J proved for all accepted parameter values when the operands are locally controlled, running index, or linear sweep), and classifies each constructor as counted-by-construction or hand-filled. Does not decide that each named family has exactly the edges of its definition.",
 		notDecided:  []string{"that each named family has exactly the edges its definition prescribes", "agreement of hand-filled counts with adjacency (CompleteGraph, CompletePartiteGraph, Path, Star, Cycle, ComplementDense, InducedSubgraph, MulticodeDecode): a value question", "complement.IsEdge(i,i), Path(1) degree, Path(0)/Star(0) M=-1, MulticodeDecode degrees[s[i]]"},
 		assumptions: []string{"vertex numbers passed as parameters are non-negative", "data-derived operands (Pruefer code elements, Multicode bytes, neighbour lists, part sizes) satisfy their range preconditions (recorded, not judged)"},
 		run: func(c *Ctx, tier string) []*RuleResult {
@@ -500,7 +500,17 @@ func init() {
 			tri.MinInst = 8
 			own := ruleOwner(c, "graph", "SparseGraph", []string{"(*graph.SparseGraph).AddVertex", "(*graph.SparseGraph).RemoveVertex", "(*graph.SparseGraph).AddEdge", "(*graph.SparseGraph).RemoveEdge"})
 			own.MinInst = 4
-			return []*RuleResult{fr, ruleLiteral(c), tri, own, ruleCtorClass(c)}
+			vw := &RuleResult{Rule: "VIEW", Doc: "the live views (complement, inducedSubgraph) derive every observer from the underlying graph on every call: their methods write nothing reachable from the view, so no cached answer can go stale when the underlying graph is edited", MinInst: 10}
+			for _, n := range []string{"N", "M", "IsEdge", "Neighbours", "Degrees"} {
+				for _, t := range []string{"complement", "inducedSubgraph"} {
+					fn := c.FnOpt("(graph." + t + ")." + n)
+					if fn == nil {
+						fn = c.Fn("(*graph." + t + ")." + n)
+					}
+					noWrites(c, vw, fn, []int{0}, "the view")
+				}
+			}
+			return []*RuleResult{fr, ruleLiteral(c), tri, own, ruleEdgeByte(c, "graph"), vw, ruleCtorClass(c)}
 		},
 		controls: func(ctl *Ctx) []*RuleResult {
 			fr := &RuleResult{Rule: "FRESH"}
